@@ -48,9 +48,9 @@ func (c btcdChainCtx) FindPreviousCheckpoint() (blockchain.HeaderCtx, error) {
 
 type fixedTime struct{ t time.Time }
 
-func (f fixedTime) AdjustedTime() time.Time             { return f.t }
-func (f fixedTime) AddTimeSample(string, time.Time)      {}
-func (f fixedTime) Offset() time.Duration               { return 0 }
+func (f fixedTime) AdjustedTime() time.Time         { return f.t }
+func (f fixedTime) AddTimeSample(string, time.Time) {}
+func (f fixedTime) Offset() time.Duration           { return 0 }
 
 // BtcdCheck runs btcd's header checks for hdr as a child of parent.
 func (w *World) BtcdCheck(parent *Node, hdr *wire.BlockHeader, now int64) error {
